@@ -1,6 +1,6 @@
 (* DC01.v — dispatch entries of property C01 (point ↦ voxel) and the NewPoint entry shared with C15 *)
 From Coq Require Import ZArith String List Bool Floats.
-From SID Require Import Base Str Ids Wire F64 ExactRef PointF.
+From SID Require Import Base Str Ids Wire F64 ExactRef PointF FF PointCheck.
 Import ListNotations.
 Open Scope string_scope.
 
@@ -32,31 +32,24 @@ Open Scope string_scope.
     | _, _ => false
     end.
 
-  (* C01 checker on observed IDs: exact x and f from the float's dyadic value, y in range, zooms as requested *)
-  Definition check_point_id (p : point) (h v : Z) (s : string) : bool :=
-    match parse_eid s, exact_x (plon p) h, exact_f (palt p) v with
-    | Some i, Some x, Some f =>
-        (eh i =? h)%Z && (ev i =? v)%Z && (ex i =? x)%Z && (ef i =? f)%Z && (0 <=? ey i)%Z && (ey i <? 2 ^ h)%Z &&
-        (0 <=? ex i)%Z && (ex i <? 2 ^ h)%Z
-    | _, _, _ => false
-    end.
-  Fixpoint check_point_ids (ps : list point) (h v : Z) (o : list string) : bool :=
-    match ps, o with
-    | [], [] => true
-    | p :: ps', s :: o' => check_point_id p h v s && check_point_ids ps' h v o'
-    | _, _ => false
-    end.
-  (* finding classes: the bit-exact model itself differs from the exact reference (two roundings before the floor / underflow) *)
-  Definition class_point (tanf cosf logf : float -> float) (p : point) (h v : Z) : string :=
+  (* the C01 checker on observed IDs (check_point_id / check_point_ids) is defined in PointCheck.v and proved sound in PointProofs.v *)
+  (* finding classes, evaluated only when the model agrees with the code and the checker rejects the output:
+     alt_underflow — the altitude is in the class of FF.alt_underflow (decided on the input by alt_underflow_b) and the model's f differs
+                     from the exact floor;
+     x_rounding    — the model's x differs from the exact floor; by XF.x_f_exact_outside_class this happens only for inputs of the class
+                     XF.x_rounding (exact position within 2^(h-52) columns of a column boundary).
+     Anything else that the checker rejects stays unclassified ("-") and is reported as a violation. *)
+  Definition class_point (p : point) (h v : Z) : string :=
     match x_f (plon p) h, exact_x (plon p) h, f_f (palt p) v, exact_f (palt p) v with
     | Some x, Some x', Some f, Some f' =>
-        if negb (f =? f')%Z then "alt_underflow" else if negb (x =? x')%Z then "x_rounding" else "-"
+        if negb (f =? f')%Z then (if alt_underflow_b (palt p) v then "alt_underflow" else "-")
+        else if negb (x =? x')%Z then "x_rounding" else "-"
     | _, _, _, _ => "-"
     end.
-  Fixpoint class_points tanf cosf logf (ps : list point) (h v : Z) : string :=
+  Fixpoint class_points (ps : list point) (h v : Z) : string :=
     match ps with
     | [] => "-"
-    | p :: r => let c := class_point tanf cosf logf p h v in if String.eqb c "-" then class_points tanf cosf logf r h v else c
+    | p :: r => let c := class_point p h v in if String.eqb c "-" then class_points r h v else c
     end.
   Definition in_domain_point (p : point) : bool :=
     (abs (plon p) <=? 180)%float && (abs (plat p) <=? c_latmax)%float && (abs (palt p) <=? pow2f 25)%float.
@@ -78,7 +71,7 @@ Open Scope string_scope.
                        if sid then match sids_to_eids o with Ok e => check_point_ids ps h v e | Err => false end
                        else check_point_ids ps h v o
                    | None => false end in
-            let cls := if corr && negb prop then class_points tanf cosf logf ps h v else "-" in
+            let cls := if corr && negb prop then class_points ps h v else "-" in
             mkv corr prop cls (res_strings m)
         | None => bad_case
         end
@@ -111,6 +104,48 @@ Open Scope string_scope.
     end.
 
 
+  (* LatRow (replays of the interval certificates of the meta step "latcert"): the row of a stored latitude at zoom h, against the
+     row k of the real-number formula certified in Coq by interval arithmetic; near_lo / near_hi say that the real row is within
+     2^(h-45) of the boundary with row k-1 / k+1, where a neighbouring answer is tolerated *)
+  Definition d_lat_row (oracle : oracle_t) (args : list val) (obs : val) : verdict :=
+    match args, obs with
+    | [VF lat; VZ h; VZ k; VB near_lo; VB near_hi], VZ y =>
+        let tanf := ofun oracle "tan" in let cosf := ofun oracle "cos" in let logf := ofun oracle "log" in
+        let m := y_f tanf cosf logf lat h in
+        let corr := match m with Some y' => (y' =? y)%Z | None => false end in
+        let prop := (y =? k)%Z || (near_lo && (y =? k - 1)%Z) || (near_hi && (y =? k + 1)%Z) in
+        mkv corr prop "-" (match m with Some y' => VZ y' | None => VNil end)
+    | _, _ => bad_case
+    end.
+
+  (* PointMoveSequence: one *object.Point converted, then moved with SetLon/SetLat/SetAlt and converted again through the same pointer.
+     args = [stored triple 1; requested triple 2; h; v; spatial-ID form?]; observed = [ids1; ids2; triple stored after the move].
+     The model maps the pure function over the two stored triples (the second one as read back from the object) and predicts the
+     stored triple itself with the NewPoint model. *)
+  Definition d_move (oracle : oracle_t) (args : list val) (obs : val) : verdict :=
+    match args, obs with
+    | [a1; a2; VZ h; VZ v; VB sid], VL [o1; o2; st] =>
+        match as_point a1, as_point a2, as_point st with
+        | Some p1, Some r2, Some s2 =>
+            let tanf := ofun oracle "tan" in let cosf := ofun oracle "cos" in let logf := ofun oracle "log" in
+            let api := fun p => if sid then points_sid_api tanf cosf logf false [p] h else points_api tanf cosf logf false [p] h v in
+            let '(n2, e2) := new_point (plon r2) (plat r2) (palt r2) in
+            let stored_ok := negb e2 && feqb_bits (plon s2) (plon n2) && feqb_bits (plat s2) (plat n2) && feqb_bits (palt s2) (palt n2) in
+            let corr := corr_list true (api p1) o1 && corr_list true (api s2) o2 && stored_ok in
+            let chk := fun p o =>
+              if negb (in_domain_point p) then true
+              else match (if is_err o then None else as_LS o) with
+                   | Some l => if sid then match sids_to_eids l with Ok e => check_point_ids [p] h h e | Err => false end
+                               else check_point_ids [p] h v l
+                   | None => false end in
+            let prop := if negb (check_zoom h && check_zoom v) then false else chk p1 o1 && chk s2 o2 in
+            let cls := if corr && negb prop then class_points [p1; s2] h (if sid then h else v) else "-" in
+            mkv corr prop cls (VL [res_strings (api p1); res_strings (api s2); of_point n2])
+        | _, _, _ => bad_case
+        end
+    | _, _ => bad_case
+    end.
+
 Definition table_C01 : table :=
   [("GetExtendedSpatialIdsOnPoints", fun o => d_points o false); ("GetSpatialIdsOnPoints", fun o => d_points o true);
-   ("NewPoint", fun _ => d_new_point)].
+   ("NewPoint", fun _ => d_new_point); ("LatRow", d_lat_row); ("PointMoveSequence", d_move)].
